@@ -20,13 +20,17 @@ Definition with_tt (s : stream) (v : Q) : stream :=
   mkS (ts s) v (dt s) (q s) (htc s) (htr s) (price s) (cold s)
       (tmin s) (tmax s) (tmins s) (tmaxs s) (cp s) (rcp s) (utcost s).
 
+Definition with_q (s : stream) (v : Q) : stream :=
+  mkS (ts s) (tt s) (dt s) v (htc s) (htr s) (price s) (cold s)
+      (tmin s) (tmax s) (tmins s) (tmaxs s) (cp s) (rcp s) (utcost s).
+
 (* _update_attributes, for a stream whose temperatures, duty, price and coefficient are numbers *)
 Definition update (s : stream) : stream :=
   let s1 :=
     if qltb (tt s) (ts s) then set_hot s
     else if qltb (ts s) (tt s) then set_cold s
     else if qleb 0 (q s) then set_cold (with_tt s (radd (ts s) latent_dT))
-    else set_hot (with_tt s (rsub (ts s) latent_dT)) in
+    else set_hot (with_q (with_tt s (rsub (ts s) latent_dT)) (Qred (- q s))) in
   let cp1 := rdiv (q s1) (rsub (tmax s1) (tmin s1)) in
   let ut1 := rmul (rdiv (q s1) 1000) (price s1) in
   let '(htr1, rcp1) :=
